@@ -645,9 +645,8 @@ def _log_lookup_can_fail(folder, m, raw, call, sub):
         if defs and all(isinstance(d.value, ast.Subscript) and isinstance(folder.try_fold(d.value.value, Scope(m), None), dict)
                         and set(folder.try_fold(d.value.value, Scope(m), None).values()) <= set(table) for d in defs):
             return None
-        if defs:
-            return f"when {idx.id} (set by `{ast.unparse(defs[0])[:50]}`) is not one of the {len(table)} keys"
-        return None                                  # a parameter: what callers pass is not decided here
+        # anything else (a helper's result, a guarded .get(), a parameter) is not decided here
+        return None
     if isinstance(idx, ast.Attribute) and isinstance(idx.value, ast.Name) and idx.value.id == "self":
         # state kept on the object: every store to it in the module must be a value known to be a key
         stores = [n for n in ast.walk(raw) if isinstance(n, ast.Assign) and any(isinstance(t, ast.Attribute) and t.attr == idx.attr and isinstance(t.value, ast.Name) and t.value.id == "self" for t in n.targets)]
